@@ -147,7 +147,7 @@ PROPERTIES = {
         assumptions=[CONC],
     ),
     'C01': dict(
-        units=['crypto', 'wire'],
+        units=['crypto', 'wire', 'enum_glue'],
         canaries=['streams'],
         scope='GLUE ONLY (cryptography and X.509 parsing are uninterpreted): the PeerId of a connection is the public key parsed from the FIRST certificate of '
               'the chain authenticated in that connection\'s own handshake; every handshake-signature callback delegates unchanged to rustls restricted to Ed25519 '
@@ -163,7 +163,7 @@ PROPERTIES = {
     'C02': dict(
         units=['wire', 'kani_wire'],
         canaries=['wire', 'streams'],
-        extra=[validate.bincode_golden],
+        extra=[validate.bincode_golden, validate.rpc_pairing],
         scope='PER STREAM ONLY: the caller writes exactly the encoding of its request to the send half of ONE freshly opened bidirectional stream, finishes it, and returns exactly '
               '(status, headers, body) decoded from the receive half of that same stream; the serving side decodes one request from its stream, hands exactly that request to the '
               'service AT MOST ONCE (ghost call log), and writes exactly the encoding of the response the handler produced for it to the send half of the same stream; a malformed '
